@@ -240,8 +240,13 @@ def max_idle_rounds(rec):
     2 x (number of passes)."""
     best = cur = 0
     last = None
+    if {r['kind'] for r in rec.rounds} - {'Producer', 'TaskGenerator'}:
+        # the classes were renamed and the generic probe is in use: ddmin's
+        # task generators (many per input, legitimately) cannot be told from
+        # hierarchical rounds - the rule stays silent
+        return 0
     for r in rec.rounds:
-        if r['kind'] == 'TaskGenerator':
+        if r['kind'] != 'Producer':
             continue
         if r['dig'] == last:
             cur += 1
